@@ -19,7 +19,8 @@ PROPERTY = "C12"
 DRIVER = "TraitsVerif/Driver/Property.lean"
 PROPS_MODULES = ["TraitsVerif.Props.C12"]
 TRANSLATORS = ["propstate", "propsrc"]
-RULE = ("seeded random histories of 1-15 steps over a pool of 3-6 HasTraits objects (value/aux Int, xn/xi/xe Any with comparison_mode "
+RULE = ("seeded random histories of 1-15 steps over a pool of 3-6 HasTraits objects (value/aux Int, xm = Map({...}) whose SHADOW xm_ "
+        "the getters read, xn/xi/xe Any with comparison_mode "
         "none/identity/equality assigned equal-but-distinct objects 1/1.0/True, (1,2)/(1.0,2.0), 2/2.0, inst Instance, "
         "kids List(Instance), byname Dict(Str, Instance), tags Set(Int)); a class per shape: Property(observe=E) or "
         "legacy depends_on, declared in one class or through a hierarchy (base plain getter / subclass "
@@ -31,7 +32,11 @@ RULE = ("seeded random histories of 1-15 steps over a pool of 3-6 HasTraits obje
         "the only one the object ever had: on_trait_change by name, observe by name, name-less on_trait_change (object-level "
         "notifier list), and a late reader; steps: scalar set, "
         "Instance reassignment (incl. None, same object, self links), list/dict/set reassignment (incl. equal "
-        "content) and in-place item mutation with duplicates (23 container methods), irrelevant changes, reads, "
+        "content) and in-place item mutation with duplicates (23 container methods), container calls whose last item is "
+        "rejected by the item / key / value trait (extend, slice, +=, whole-list / whole-dict assignment, dict.update with a bad "
+        "value or key, set.update, |=: must raise, leave nothing behind, and in any case leave cache == recomputation and "
+        "the listeners told), sets / deletes through the property's own setter (arity 2 / 3, validated, read-only), "
+        "irrelevant changes, reads, "
         "attach/detach, construction with keyword arguments, pickle round trip / clone_traits / deepcopy of the whole "
         "graph at a random point; histories ending with a value the observers cannot be "
         "hooked to (None appended to a list / stored in a dict, an object without the observed traits assigned to "
@@ -75,18 +80,20 @@ EXPRS = ["v", "i.v", "k.v", "B", "i.k.v", "T", "b.v", "K", "I", "i.i.v", "k.k.v"
          "v+i.v", "k.v+B", "i.v+i.k.v", "T+k.v+I", "i.i.i.v", "b.b.v", "i.k.i.v",
          "Xi", "Xn", "Xe", "i.Xi", "k.Xi", "Xi+Xe", "b.Xn", "i.Xe",
          # several paths that reach the same objects
-         "k.v+i.v", "b.v+i.v", "k.i.v+i.i.v", "k.v+b.v", "i.k.v+k.v"]
+         "k.v+i.v", "b.v+i.v", "k.i.v+i.i.v", "k.v+b.v", "i.k.v+k.v",
+         # a mapped dependency (the getter reads the shadow)
+         "Xm", "i.Xm", "k.Xm", "Xm+v", "Xm+i.Xm"]
 # with dynamic defaults returning shared objects (shape extra D)
 DD_EXPRS = ["k.v+i.v", "b.v+i.v", "k.i.v+i.i.v", "k.v+b.v+i.v", "i.k.v+i.i.v", "k.v+I", "K+i.v", "B+i.v", "k.v+i.v+v",
             "k.v", "b.v", "i.v", "i.k.v", "k.i.v", "i.v+k.v", "i.i.v+k.i.v"]
 # expressions in which a link can be reachable through itself (the F10 input class)
 SELF_EXPRS = ["i.i.v", "k.k.v", "i.i.i.v", "b.b.v", "i.k.i.v", "i.i.v", "k.k.v"]
 LINK_SLOT = {"i": "i", "k": "k", "b": "b"}
-LEAF_SLOT = {"v": "v", "a": "a", "I": "i", "K": "k", "B": "b", "T": "t", "Xn": "xn", "Xi": "xi", "Xe": "xe"}
+LEAF_SLOT = {"v": "v", "a": "a", "I": "i", "K": "k", "B": "b", "T": "t", "Xn": "xn", "Xi": "xi", "Xe": "xe", "Xm": "xm"}
 OBS_LINK = {"i": "inst", "k": "kids.items", "b": "byname.items"}
-OBS_LEAF = {"Xn": "xn", "Xi": "xi", "Xe": "xe", "v": "value", "a": "aux", "I": "inst", "K": "kids.items", "B": "byname.items", "T": "tags.items"}
+OBS_LEAF = {"Xm": "xm", "Xn": "xn", "Xi": "xi", "Xe": "xe", "v": "value", "a": "aux", "I": "inst", "K": "kids.items", "B": "byname.items", "T": "tags.items"}
 LEG_LINK = {"i": "inst", "k": "kids", "b": "byname"}
-LEG_LEAF = {"Xn": "xn", "Xi": "xi", "Xe": "xe", "v": "value", "a": "aux", "I": "inst", "K": "kids", "B": "byname", "T": "tags"}
+LEG_LEAF = {"Xm": "xm", "Xn": "xn", "Xi": "xi", "Xe": "xe", "v": "value", "a": "aux", "I": "inst", "K": "kids", "B": "byname", "T": "tags"}
 # how the class hierarchy declares the property (the shape's expr / cached are the EFFECTIVE ones):
 #   -   one class            bu  base: Property + plain getter, subclass overrides _get_p with @cached_property
 #   b2  as bu, with an empty class in between      bc  base cached, subclass overrides with a plain getter
@@ -95,8 +102,11 @@ INHERIT = ("-", "bu", "b2", "bc", "rd")
 # Dependencies with a comparison mode: xn / xi / xe = Any(comparison_mode=none / identity / equality).
 # The heap key of xn / xi is a code of the OBJECT held (index in LITS: equal-but-distinct objects differ), that of xe
 # the ==-class of the value (index in EQ_REPS); a step token `c~r` assigns representative r of class c.
-SCALARS = ("v", "a", "xn", "xi", "xe")
-SCALAR_NAME = {"v": "value", "a": "aux", "xn": "xn", "xi": "xi", "xe": "xe"}
+SCALARS = ("v", "a", "xn", "xi", "xe", "xm")
+SCALAR_NAME = {"v": "value", "a": "aux", "xn": "xn", "xi": "xi", "xe": "xe", "xm": "xm"}
+# xm = Map(XM_MAP): a MAPPED dependency; the getters read its shadow `xm_` (maintained by post_setattr), which is
+# a function of the key assigned - the heap records the key
+XM_MAP = {0: 100, 1: 101, 2: 102, 3: 103}
 LITS = [None, 1, 1.0, True, (1, 2), (1.0, 2.0), 2, 2.0, "a"]
 EQ_REPS = [[None], [1, 1.0, True], [(1, 2), (1.0, 2.0)], [2, 2.0], ["a"]]
 
@@ -191,7 +201,7 @@ class Shape:
 # ---------------------------------------------------------------------------
 
 def blank_obj():
-    return {"v": 0, "a": 0, "xn": 0, "xi": 0, "xe": 0, "i": None, "k": [], "b": {}, "t": set()}
+    return {"v": 0, "a": 0, "xn": 0, "xi": 0, "xe": 0, "xm": 0, "i": None, "k": [], "b": {}, "t": set()}
 
 
 def h_targets(h, o, l):
@@ -329,7 +339,7 @@ def h_set_target(h, shape, root=0):
 
 
 def h_copy(h):
-    return {o: {"v": ob["v"], "a": ob["a"], "xn": ob["xn"], "xi": ob["xi"], "xe": ob["xe"], "i": ob["i"], "k": list(ob["k"]), "b": dict(ob["b"]), "t": set(ob["t"])}
+    return {o: {"v": ob["v"], "a": ob["a"], "xn": ob["xn"], "xi": ob["xi"], "xe": ob["xe"], "xm": ob["xm"], "i": ob["i"], "k": list(ob["k"]), "b": dict(ob["b"]), "t": set(ob["t"])}
             for o, ob in h.items()}
 
 
@@ -475,7 +485,7 @@ def set_op(s, op):
 
 def parse_write(w):
     k, _, v = w.partition("=")
-    if k in ("v", "a"):
+    if k in ("v", "a", "xm"):
         return (k, int(v))
     if k in ("xn", "xi", "xe"):
         return (k, v)
@@ -492,7 +502,7 @@ def parse_write(w):
 
 def show_write(w):
     k, v = w
-    if k in ("v", "a"):
+    if k in ("v", "a", "xm"):
         return "%s=%d" % (k, v)
     if k in ("xn", "xi", "xe"):
         return "%s=%s" % (k, v)
@@ -510,7 +520,7 @@ def parse_step(s):
     w = s.split()
     k = w[0]
     if k == "sv":
-        return ("sv", int(w[1]), w[2], int(w[3]) if w[2] in ("v", "a") else w[3])
+        return ("sv", int(w[1]), w[2], int(w[3]) if w[2] in ("v", "a", "xm") else w[3])
     if k == "si":
         return ("si", int(w[1]), None if w[2] == "N" else int(w[2]))
     if k == "sk":
@@ -528,6 +538,12 @@ def parse_step(s):
         return (k,) if len(w) == 1 else (k, w[1])
     if k == "rd":
         return (k,)
+    if k == "mf":
+        # mf o slot how [items]: a container call whose LAST item is rejected by the item / key / value trait
+        #   k: ex extend | sl slice [0:0] | ia += | as assignment of the whole list   (rejected item: the int 5)
+        #   b: uv update, bad value | uk update, bad key | as assignment of the whole dict
+        #   t: up update | io |=   (items are ints; rejected item: the string 'bad')
+        return ("mf", int(w[1]), w[2], w[3], parse_ids(w[4]))
     if k == "sp":
         return ("sp", w[1] if w[1] == "bad" else int(w[1]))
     if k == "dp":
@@ -579,6 +595,10 @@ def rebuild(shape_text, n, steps):
             if shape.set_n is not None and st[1] != "bad" and t is not None:
                 h[t[0]][t[1]] = st[1]
             out.append("sp %s" % st[1])
+        elif k == "mf":
+            ob = h[st[1]]
+            cur = show_ids(ob["k"]) if st[2] == "k" else show_dict(ob["b"]) if st[2] == "b" else show_ids(sorted(ob["t"]))
+            out.append("mf %d %s %s %s %s" % (st[1], st[2], st[3], show_ids(st[4]), cur))
         elif k == "sv":
             h[st[1]][st[2]] = tok_key(st[3])
             out.append("sv %d %s %s" % (st[1], st[2], st[3]))
@@ -688,7 +708,7 @@ def shrink(case, fails):
 # ---------------------------------------------------------------------------
 
 _CLASSES = {}
-NODE_FIELDS = ["uid", "value", "aux", "xn", "xi", "xe", "inst", "kids", "byname", "tags"]
+NODE_FIELDS = ["uid", "value", "aux", "xn", "xi", "xe", "xm", "inst", "kids", "byname", "tags"]
 
 
 def _register(cls, name):
@@ -749,7 +769,7 @@ def node_class(fv="", dd=False):
         fv = fv + "D"
     if "node" + fv in _CLASSES:
         return _CLASSES["node" + fv]
-    from traits.api import Any, ComparisonMode, Dict, HasTraits, Instance, Int, List, Set, Str
+    from traits.api import Any, ComparisonMode, Dict, HasTraits, Instance, Int, List, Map, Set, Str
 
     class C12Node(HasTraits):
         uid = Int()
@@ -758,6 +778,7 @@ def node_class(fv="", dd=False):
         xn = Any(comparison_mode=ComparisonMode.none)
         xi = Any(comparison_mode=ComparisonMode.identity)
         xe = Any(comparison_mode=ComparisonMode.equality)
+        xm = Map(dict(XM_MAP), default_value=0)
         inst = Instance(HasTraits)
         kids = List(Instance(HasTraits))
         byname = Dict(Str, Instance(HasTraits), copy="deep")
@@ -840,6 +861,8 @@ def r_content_str(o, slot):
         return str(lit_code(getattr(o, slot)))     # distinguishes 1 / 1.0 / True, (1, 2) / (1.0, 2.0) ...
     if slot == "xe":
         return str(eq_class(o.xe))                 # ... an equality-compared dependency must not be told apart
+    if slot == "xm":
+        return str(o.xm_ - 100)                    # the SHADOW of the mapped trait
     if slot == "i":
         i = _get(o, "inst")
         return "N" if i is None else "#%s" % _uid(i)
@@ -867,6 +890,8 @@ def r_content_sum(o, slot):
         return lit_code(getattr(o, slot))
     if slot == "xe":
         return eq_class(o.xe)
+    if slot == "xm":
+        return o.xm_ - 100
     if slot == "i":
         i = _get(o, "inst")
         return 0 if i is None else _unum(i)
@@ -1062,7 +1087,7 @@ def snapshot(pool):
     uid = {id(o): i for i, o in enumerate(pool)}
     h = {}
     for i, o in enumerate(pool):
-        h[i] = {"v": o.value, "a": o.aux, "xn": lit_code(o.xn), "xi": lit_code(o.xi), "xe": eq_class(o.xe), "i": None if o.inst is None else uid.get(id(o.inst), -1),
+        h[i] = {"v": o.value, "a": o.aux, "xn": lit_code(o.xn), "xi": lit_code(o.xi), "xe": eq_class(o.xe), "xm": o.xm, "i": None if o.inst is None else uid.get(id(o.inst), -1),
                 "k": [uid.get(id(x), -1) for x in o.kids],
                 "b": dict((int(k[1:]), uid.get(id(v), -1)) for k, v in o.byname.items()),
                 "t": set(o.tags)}
@@ -1187,7 +1212,7 @@ class Run:
     def construct(self, writes):
         kw = {}
         for k, v in writes:
-            kw[{"v": "value", "a": "aux", "xn": "xn", "xi": "xi", "xe": "xe", "i": "inst", "k": "kids", "b": "byname",
+            kw[{"v": "value", "a": "aux", "xn": "xn", "xi": "xi", "xe": "xe", "xm": "xm", "i": "inst", "k": "kids", "b": "byname",
                 "t": "tags"}[k]] = self.conv(k, v)
         self.pool[0] = self.cls(uid=0, **kw)
         self.kinds = set()
@@ -1376,6 +1401,46 @@ def run_impl(case):
             tgt = (st[1], st[2])
         elif k in ("si", "sk", "sb", "st"):
             tgt = (st[1], k[1])
+        if k == "mf":
+            # Statement: a container call that raises because an item is rejected leaves the container as it was
+            # (C05-C07) - in any case the cache / the next read is the recomputation and, if the value changed,
+            # the listeners are told (checked below like any other change of that container)
+            o = R.pool[st[1]]
+            items = [R.pool[i] for i in st[4]] if st[2] != "t" else list(st[4])
+            bad = "bad" if st[2] == "t" else 5
+            tags.add("rejected-call:%s:%s" % (st[2], st[3]))
+            try:
+                if st[2] == "k":
+                    seq = items + [bad]
+                    if st[3] == "ex":
+                        o.kids.extend(seq)
+                    elif st[3] == "sl":
+                        o.kids[0:0] = seq
+                    elif st[3] == "ia":
+                        o.kids += seq
+                    else:
+                        o.kids = seq
+                elif st[2] == "b":
+                    d = dict(("k%d" % (20 + j), x) for j, x in enumerate(items))
+                    if st[3] == "uk":
+                        d[5] = R.pool[0]
+                    else:
+                        d["k99"] = bad
+                    if st[3] == "as":
+                        o.byname = d
+                    else:
+                        o.byname.update(d)
+                else:
+                    seq = items + [bad]
+                    if st[3] == "up":
+                        o.tags.update(seq)
+                    else:
+                        o.tags |= set(seq)
+                read = "accepted"
+            except Exception as e:
+                if S.exc_name(e) != "TraitError":
+                    mut_exc = e
+            tgt = (st[1], st[2])
         if k in ("sp", "dp"):
             # a set / delete through the property itself.  Statement: a deletion, a value the declared type or the
             # setter rejects, and a set of a read-only property raise TraitError and change nothing; an accepted
@@ -1742,7 +1807,7 @@ def listener_step(rng, kinds):
     return ("at", k)
 
 
-ALL_SLOTS = ["v", "a", "i", "k", "b", "t", "xn", "xi", "xe"]
+ALL_SLOTS = ["v", "a", "i", "k", "b", "t", "xn", "xi", "xe", "xm"]
 
 
 def slots_of(paths):
@@ -1950,10 +2015,17 @@ def random_history(rng, legacy=None, maxsteps=15, allow_self=0.06, tree=None, ex
         if slot in ("v", "a"):
             v = ob[slot] if rng.random() < 0.12 else rng.randint(0, 9)
             return ("sv", o, slot, v)
+        if slot == "xm":
+            return ("sv", o, slot, ob[slot] if rng.random() < 0.12 else rng.randint(0, 3))
         if slot == "i":
             r = rng.random()
             t = None if r < 0.15 else ob["i"] if r < 0.25 else pick_target(o)
             return ("si", o, t)
+        if slot in ("k", "b", "t") and rng.random() < 0.07:
+            # a call whose last item is rejected (raises; earlier items of the same call must not stay behind)
+            how = {"k": ["ex", "sl", "ia", "as"], "b": ["uv", "uv", "uk", "as"], "t": ["up", "io"]}[slot]
+            items = rand_ids(o, 1, 2) if slot != "t" else [rng.randint(0, 5) for _ in range(rng.randint(1, 2))]
+            return ("mf", o, slot, rng.choice(how), items)
         if slot == "k":
             l = ob["k"]
             r = rng.random()
@@ -2049,6 +2121,8 @@ def random_history(rng, legacy=None, maxsteps=15, allow_self=0.06, tree=None, ex
         for slot in rng.sample(ALL_SLOTS, rng.randint(0, 6)):
             if slot in ("v", "a"):
                 ws.append((slot, rng.randint(0, 9)))
+            elif slot == "xm":
+                ws.append((slot, rng.randint(0, 3)))
             elif slot in ("xn", "xi"):
                 ws.append((slot, str(rng.randrange(len(LITS)))))
             elif slot == "xe":
@@ -2224,7 +2298,7 @@ SMALL_ALPHABETS = {
               ("rd",), ("at", "n"), ("cp", "d")],
     "b.v": [("sb", 0, {0: 1}), ("sb", 0, {0: 1, 1: 1}), ("sb", 0, {}), ("mb", 0, "set:0:1"), ("mb", 0, "set:1:1"),
             ("mb", 0, "set:0:2"), ("mb", 0, "del:0"), ("mb", 0, "pop:1"), ("sv", 1, "v", 1), ("sv", 2, "v", 1),
-            ("rd",), ("at", "n"), ("at",)],
+            ("mf", 0, "b", "uv", [2]), ("rd",), ("at", "n"), ("at",)],
     "v+i.v": [("sv", 0, "v", 1), ("sv", 0, "v", 0), ("sv", 0, "a", 1), ("si", 0, 1), ("si", 0, None), ("si", 0, 0),
               ("sv", 1, "v", 1), ("rd",), ("at", "n"), ("at",), ("dt",), ("cp", "p")],
     "Xi": [("sv", 0, "xi", "1"), ("sv", 0, "xi", "2"), ("sv", 0, "xi", "3"), ("sv", 0, "xi", "4"), ("sv", 0, "xi", "5"),
@@ -2314,6 +2388,16 @@ def corpus():
         "i.v 1 o 0 0 0 0 S 0 - -|3|at t;si 0 1;sv 1 v 4;dt t;sv 1 v 5;at o;sv 1 v 6;rd;cp p;at n;sv 1 v 7",
         "k.v 1 o 0 0 0 0 V 0 - - A|3|sk 0 [1];sv 1 v 3;rd;sv 1 v 4;cp c;sv 1 v 5;rd",
         "v 0 o 0 0 0 0 F 0 - bc A|2|sv 0 v 3;at n;sv 0 v 4;dt n;sv 0 v 5",
+        # a mapped dependency: the getter reads the shadow `xm_`, with every kind of listener evaluating the getter
+        # inside the invalidation
+        "Xm 1 o 1 0 0 0 V 0 - -|2|rd;sv 0 xm 2;rd;sv 0 xm 2;rd;sv 0 xm 3;rd;cp p;sv 0 xm 1;rd;cp c;sv 0 xm 2;rd",
+        "i.Xm+Xm 1 o 0 0 0 0 S 0 - -|3|si 0 1;at o;sv 1 xm 3;rd;dt o;at n;sv 0 xm 2;rd;sv 1 xm 1;rd",
+        "k.Xm 0 o 0 0 0 0 V 0 - - A|3|sk 0 [1,1,2];sv 1 xm 2;sv 2 xm 1;rd",
+        # container calls in which the LAST item is rejected: nothing of the call may stay behind un-announced
+        "b.v 1 o 1 0 0 0 V 0 - -|4|mb 0 set:0:1 {0:1} 1;rd;mf 0 b uv [2,3];rd;sv 2 v 5;rd;mf 0 b uk [2];rd;mf 0 b as [3];rd",
+        "B 1 o 0 0 0 0 V 0 - -|3|at;rd;mf 0 b uv [1];rd;mf 0 b uv [1,2];rd",
+        "k.v 1 o 0 0 0 0 V 0 - -|4|sk 0 [1];at n;rd;mf 0 k ex [2,3];rd;mf 0 k sl [2];mf 0 k ia [3];mf 0 k as [2];rd;sv 2 v 4;rd",
+        "T 1 o 1 0 0 0 S 0 - -|2|mt 0 add:1 [1] 1;rd;mf 0 t up [2,3];rd;mf 0 t io [4];rd",
         # set through the property's own setter (arity 2 / 3, validated or not), read-only property, rejected
         # value, deletion: the setter's dependency write invalidates and announces like any other change
         "i.v 1 o 1 0 0 0 V 0 - - S|3|si 0 1;rd;sp 5;rd;sp 5;rd;sp bad;rd;dp;rd;si 0 N;sp 7;rd",
